@@ -417,6 +417,7 @@ def run(ctx):
     literal_operator_recorded(ctx)
     sign_printing(ctx)
     scope_peels_const_and_typedef_together(ctx)
+    comparisons_pair_this_with_other(ctx)
     rebuild_rules(ctx, "R06.5")
     changed_flag_rules(ctx, "R06.6")
     ctx.rule("R06.1", "every field a (non-copy) constructor initialises from a parameter is read by the class's structural is_less() and is_equal()")
@@ -756,3 +757,95 @@ def scope_peels_const_and_typedef_together(ctx):
             ctx.ob("R06.12", "CPPScope::find_scope(%d)|strip-%s|in-joint-loop" % (len(f.params), "+".join(sorted(kinds))), ok, f.loc(y),
                    "`%s` is %sinside a loop that runs while the type is const or a typedef" % (show(y)[:60], "" if ok else "NOT "))
     ctx.floor("R06.12", "const/typedef stripping steps in find_scope", n, 4)
+
+
+def _cmp_side(n):
+    """(root, member path, deref?) of one operand of a comparison: root is 'this' / the name of a local / None."""
+    n = strip_casts(peel(n)) if n is not None else None
+    deref = False
+    while n is not None and n.get("k") == "un" and n.get("op") == "*":
+        deref = True
+        n = strip_casts(peel(n.get("e")))
+    path = []
+    while n is not None and n.get("k") == "mem":
+        path.append((n.get("n") or "").split("::")[-1])
+        n = strip_casts(peel(n.get("b")))
+    if not path or n is None:
+        return None
+    root = "this" if n.get("k") == "this" else (n.get("n") if n.get("k") == "ref" else None)
+    if root is None:
+        return None
+    return root, ".".join(reversed(path)), deref
+
+
+def comparisons_pair_this_with_other(ctx):
+    """R06.13 / R06.14: new_type() merges what is_less()/is_equal() cannot tell apart.  Two ways a comparison can be
+    present and still tell nothing apart: (R06.13) it compares a member with ITSELF (`*_u._op._op3 == *_u._op._op3`)
+    or with a different member of the other object; (R06.14) in is_less the guard and the ordering disagree about
+    depth - `if (a != b) return *a < *b` with a POINTER guard makes two structurally equal operands "unequal", the deep
+    `<` then answers false both ways and the pair is equivalent whatever the remaining members are.
+    (Seeds S7-C07, S7-C06.)"""
+    db = ctx.db
+    ctx.rule("R06.13", "in the is_equal()/is_less() of every comparable parser class, a comparison whose operands are both member paths pairs the member of *this with the SAME member of the other object")
+    ctx.rule("R06.14", "in is_less(), `if (X != Y) return X' < Y'` uses the same depth on both lines: a dereferenced ordering is guarded by a dereferenced inequality")
+    n13 = n14 = 0
+    for f in db.functions:
+        if "/cppparser/" not in f.file or f.name.split("::")[-1] not in ("is_equal", "is_less"):
+            continue
+        cls = f.name.split("::")[0]
+        for c in f.walk():
+            sides = None
+            op = None
+            if c.get("k") == "call" and c.get("opc") and callee_short(c) in ("operator==", "operator!=", "operator<") and len(c.get("a", [])) == 2:
+                sides = (c["a"][0], c["a"][1])
+                op = callee_short(c)[8:]
+            elif c.get("k") == "bin" and c.get("op") in ("==", "!=", "<"):
+                sides = (c["x"], c["y"])
+                op = c["op"]
+            if sides is None:
+                continue
+            a, b = _cmp_side(sides[0]), _cmp_side(sides[1])
+            if a is None or b is None:
+                continue
+            n13 += 1
+            ok = a[1] == b[1] and a[0] != b[0] and "this" in (a[0], b[0])
+            ctx.ob("R06.13", "%s|%s %s|pairs-this-with-other" % (f.name, a[1], op), ok, f.loc(c),
+                   "`%s` compares %s.%s with %s.%s" % (show(c)[:70], a[0], a[1], b[0], b[1]))
+        if f.name.endswith("is_less"):
+            for n in f.walk():
+                if n.get("k") != "if" or n.get("c") is None:
+                    continue
+                g = strip_casts(peel(n["c"]))
+                gs = None
+                if g is not None and g.get("k") == "call" and g.get("opc") and callee_short(g) == "operator!=" and len(g.get("a", [])) == 2:
+                    gs = (g["a"][0], g["a"][1])
+                elif g is not None and g.get("k") == "bin" and g.get("op") == "!=":
+                    gs = (g["x"], g["y"])
+                if gs is None:
+                    continue
+                ga, gb = _cmp_side(gs[0]), _cmp_side(gs[1])
+                if ga is None or gb is None:
+                    continue
+                for r in walk(n.get("then") or {}):
+                    if r.get("k") != "ret" or r.get("e") is None:
+                        continue
+                    nearest = next((a for a in f.ancestors(r) if a.get("k") == "if"), None)
+                    if nearest is not n:
+                        continue        # guarded more closely by a nested test, judged there
+                    e = strip_casts(peel(r["e"]))
+                    rs = None
+                    if e is not None and e.get("k") == "call" and e.get("opc") and callee_short(e) == "operator<" and len(e.get("a", [])) == 2:
+                        rs = (e["a"][0], e["a"][1])
+                    elif e is not None and e.get("k") == "bin" and e.get("op") == "<":
+                        rs = (e["x"], e["y"])
+                    if rs is None:
+                        continue
+                    ra, rb = _cmp_side(rs[0]), _cmp_side(rs[1])
+                    if ra is None or rb is None or ra[1] != ga[1]:
+                        continue
+                    n14 += 1
+                    ok = (ra[2] == ga[2]) and (rb[2] == gb[2])
+                    ctx.ob("R06.14", "%s|%s|guard-and-order-same-depth" % (f.name, ga[1]), ok, f.loc(n),
+                           "guard `%s` (%s) / order `%s` (%s)" % (show(n["c"])[:50], "deep" if ga[2] else "by address", show(r["e"])[:50], "deep" if ra[2] else "by address"))
+    ctx.floor("R06.13", "member-to-member comparisons in is_equal/is_less", n13, 60)
+    ctx.floor("R06.14", "guarded orderings in is_less", n14, 15)
